@@ -76,6 +76,9 @@ def render(spec):
                 p = import_path(spec, i, j)
                 if form == "mod":
                     L.append("import %s" % p)
+                elif form == "vals":
+                    # a second, later names-form import of value-typed exports: they are bound to what the module holds NOW
+                    L.append("import tot%d, n%d from %s\nprint tot%d\nprint n%d" % (j, j, p, j, j))
                 elif form == "type":
                     tmp[0] += 1
                     L.append("import type T%d from %s\ntv%d: T%d = %d\nprint tv%d" % (j, p, tmp[0], j, 40 + j, tmp[0]))
@@ -170,6 +173,9 @@ def render(spec):
                     run(j)
                 if st[2] == "type":
                     out.append(str(40 + j))
+                if st[2] == "vals":
+                    out.append(str(states[j].cnt))
+                    out.append(str(10 + j))
             elif k == "use":
                 j, what = st[1], st[3]
                 s = states[j]
@@ -269,7 +275,7 @@ def generate(rng, max_mods=5, negative=False):
                 forms = ["mod"]
             else:
                 forms = rng.weighted([(["mod"], 3), (["names"], 3), (["mod", "names"], 2), (["names", "mod"], 2), (["type"], 1),
-                                      (["type", "mod"], 1), (["names", "type"], 1)])
+                                      (["type", "mod"], 1), (["names", "type"], 1), (["names", "vals"], 2), (["mod", "vals"], 1)])
             for f in forms:
                 slots.append(("import", j, f))
         state_pos = rng.below(len(slots) + 1)
@@ -283,15 +289,15 @@ def generate(rng, max_mods=5, negative=False):
                 _, j, f = s
                 stmts.append(["import", j, f])
                 imported.setdefault(j, []).append(f)
-                if f != "type" and not bare[j]:
+                if f not in ("type", "vals") and not bare[j]:
                     for _ in range(rng.range(0, 2)):
                         stmts.append(["use", j, f, rng.choice(["bump", "bump", "peek", "cell", "mk"] + (["tot", "tot"] if f == "mod" else [])
                                                               + (["tostr", "tostr"] if (f == "mod" and j % 2 == 1) else []))])
             # interleave uses of earlier imports
-            usable = sorted(j for j in imported if not bare[j] and [f for f in imported[j] if f != "type"])
+            usable = sorted(j for j in imported if not bare[j] and [f for f in imported[j] if f not in ("type", "vals")])
             if usable and rng.chance(1, 2):
                 j = rng.choice(usable)
-                f = rng.choice([f for f in imported[j] if f != "type"])
+                f = rng.choice([f for f in imported[j] if f not in ("type", "vals")])
                 stmts.append(["use", j, f, rng.choice(["bump", "peek", "cell", "mk"] + (["tot"] if f == "mod" else []))])
         # a function exported by i that reaches into an imported module
         modform = [j for j, fs in imported.items() if "mod" in fs and not bare[j]]
